@@ -10,6 +10,11 @@ CONSTANTS
   CdLab = 2
   CdSlack = {0, 1}
   FIXED = TRUE
+  HistGrids = {}
+  HistLen = 1
+  Chains = {FALSE}
+  HistPickInit = 0
+  HistPickNext = 0
 INVARIANT InBounds
 INVARIANT SoExact
 INVARIANT CdExact
